@@ -117,11 +117,14 @@ func (s *fstate) with(fs ...*Term) *fstate {
 	return n
 }
 
-func (s *fstate) kill(root types.Object, path []string) *fstate {
+func (s *fstate) kill(root types.Object, path []string) *fstate { return s.killX(root, path, false) }
+
+// killX: viaCall = the memory reachable from root may have been written by a callee; the variable itself keeps its value.
+func (s *fstate) killX(root types.Object, path []string, viaCall bool) *fstate {
 	var n *fstate
 	for k, f := range s.facts {
 		hit := mentions(f, root, path)
-		if hit && f.S == "def" && len(path) > 0 && len(f.A) >= 2 && f.A[0].K == "var" && f.A[0].Obj == root {
+		if hit && f.S == "def" && (len(path) > 0 || viaCall) && len(f.A) >= 2 && f.A[0].K == "var" && f.A[0].Obj == root {
 			// a field store through v does not change where the pointer v came from
 			hit = false
 			for _, a := range f.A[1:] {
@@ -196,7 +199,47 @@ func newE1(c *Ctx, guars []*Guar) *e1 {
 		e.guars[g.Fn] = g
 	}
 	e.computeMuts()
+	e.computeReads()
 	return e
+}
+
+// computeReads fills methodReads: methods whose body touches the receiver only through direct field reads.
+func (e *e1) computeReads() {
+	for _, fi := range e.c.P.Funcs {
+		if fi.Obj == nil || fi.Body == nil || fi.Sig == nil || fi.Sig.Recv() == nil || fi.Decl == nil {
+			continue
+		}
+		recv := fi.Sig.Recv()
+		info := fi.Pkg.TypesInfo
+		fields := map[string]bool{}
+		simple := true
+		ast.Inspect(fi.Body, func(n ast.Node) bool {
+			switch x := n.(type) {
+			case *ast.SelectorExpr:
+				if id, ok := unparen(x.X).(*ast.Ident); ok && info.Uses[id] == recv {
+					if s, ok := info.Selections[x]; ok && s.Kind() == types.FieldVal {
+						fields[x.Sel.Name] = true
+					} else {
+						simple = false // method call on the receiver
+					}
+					return false
+				}
+			case *ast.Ident:
+				if info.Uses[x] == recv {
+					simple = false // receiver used as a whole
+				}
+			}
+			return true
+		})
+		if simple {
+			var fs []string
+			for f := range fields {
+				fs = append(fs, f)
+			}
+			sort.Strings(fs)
+			methodReads[fi.Obj] = fs
+		}
+	}
 }
 
 // computeMuts: which pointer-like parameters (or receivers) a function writes through (fixpoint over direct calls).
@@ -1000,7 +1043,7 @@ func (f *e1func) callEffects(st *fstate, n ast.Node) *fstate {
 				continue
 			}
 			if r, p, ok := accessPath(f.term(arg)); ok && r != nil {
-				st = st.kill(r, p)
+				st = st.killX(r, p, true)
 			}
 		}
 	}
@@ -1264,7 +1307,6 @@ func (f *e1func) doReturn(rs *ast.ReturnStmt, cur []*fstate, sites *[]*e1site) {
 	}
 	site := &e1site{kind: "ret", node: rs, term: mk("ret", "", ops...), pos: rs.Pos(), retIdx: f.errIdx}
 	for _, st := range cur {
-		st = f.callEffects(st, rs)
 		if f.errIdx < 0 || f.errIdx >= len(ops) {
 			site.states = append(site.states, st)
 			site.ok = append(site.ok, true)
